@@ -1,12 +1,15 @@
 """C18 — a truncated GDSII file is never read as complete and never crashes a reader."""
 CONFIG = {
-    "manifest": {'level_text': "Coq theorems, generic over the per-record semantics, prove for EVERY byte stream and EVERY cut that a reader of gdstk's loop shape (read record; return on error; return result at its final record) returns a short-read error on every prefix that ends before its final record and exactly the complete file's result on every longer prefix, and always terminates; instances: full load, raw-cell load, summary (return at ENDLIB), gds_units (UNITS), gds_timestamp (BGNLIB); and, at the DATA level, for the statement-level models of read_gds (any tag filter), gds_info and read_rawcells: a cut file yields the short-read error or exactly the library / summary / raw-cell table of the complete file, with an explicit threshold (the end of the ENDLIB record), and these models never hang; oas_precision has a statement-level model too (OasisPrecision.v, compared on every prefix of gdstk-written and spec-encoded OASIS files, all real types for the unit): oas_precision_threshold - below the end of START's unit real every cut returns an error code, from there on exactly the complete file's value (for files below 2^33 bytes); it returns normally whenever the declared version length is below 2^33 (a version string declared 2^40 long makes oasis_read_string write through the NULL that allocate returns: refutation witness, not a prefix of any valid file). The extracted model predicts the status of every prefix of every generated file and is compared with the five real readers; memory errors, hangs and descriptor leaks are observed at run time (forked children, alarms, /proc/self/fd; ASan+UBSan without the alignment check in the thorough tier: gdstk reads 8-byte reals at offset 4 of its record buffer, which x86 tolerates and which is outside this property).", 'level_note': "Memory safety, hangs, descriptor leaks and the OASIS light-weight queries (oas_precision, oas_validate: every cut, repeated calls) are run-time validation, not theorems; 'no matching signature on a truncated signed file' is enumerated over all cuts (CRC collision statement). Three defects found by this check were repaired by fix: commits (known_findings.json).", 'technique': 'Coq proof (generic reader-loop prefix theorems) + all-prefix differential run against the extracted model + run-time crash/hang/fd observation'},
+    "manifest": {'level_text': "Coq theorems, generic over the per-record semantics, prove for EVERY byte stream and EVERY cut that a reader of gdstk's loop shape (read record; return on error; return result at its final record) returns a short-read error on every prefix that ends before its final record and exactly the complete file's result on every longer prefix, and always terminates; instances: full load, raw-cell load, summary (return at ENDLIB), gds_units (UNITS), gds_timestamp (BGNLIB); and, at the DATA level, for the statement-level models of read_gds (any tag filter), gds_info and read_rawcells: a cut file yields the short-read error or exactly the library / summary / raw-cell table of the complete file, with an explicit threshold (the end of the ENDLIB record), and these models never hang; oas_precision has a statement-level model too (OasisPrecision.v, compared on every prefix of gdstk-written and spec-encoded OASIS files, all real types for the unit): oas_precision_threshold - below the end of START's unit real every cut returns an error code, from there on exactly the complete file's value (for files below 2^33 bytes); it returns normally whenever the declared version length is below 2^33 (a version string declared 2^40 long makes oasis_read_string write through the NULL that allocate returns: refutation witness, not a prefix of any valid file). The extracted model predicts the status of every prefix of every generated file and is compared with the five real readers; oas_validate and the signed END record of write_oas have a statement-level model with crc32 / checksum32 defined in Coq (unit oas_sig, Properties_C18S.v); memory errors, hangs and descriptor leaks are observed at run time (forked children, alarms, /proc/self/fd; ASan+UBSan without the alignment check in the thorough tier: gdstk reads 8-byte reals at offset 4 of its record buffer, which x86 tolerates and which is outside this property).", 'level_note': "Memory safety, hangs and descriptor leaks are run-time validation, not theorems. oas_validate has a statement-level model (coq/OasisSig.v: crc32 as zlib computes it - table generated in Gallina and proved equal to the bit-serial register -, gdstk's checksum32, the 32 KiB chunk loop, every return path) with oas_validate_is_spec (the loop computes the signature of the whole prefix for every file length and every content of the uninitialised buffer), writer_validator_agreement (a file signed as write_oas signs it validates, for both schemes) and truncation_collision (a cut validates IF AND ONLY IF its last five bytes happen to be a scheme byte and the signature of what precedes them): the clause 'never a matching signature on a truncated signed file' is therefore refuted as written (a file that embeds such five bytes, witness replayed on the real functions, known finding oas_validate:embedded-signature) and holds up to exactly that collision condition; every cut inside the last 200 bytes of a signed file returns true with ChecksumError (truncation_in_end_padding). Three defects found by this check were repaired by fix: commits (known_findings.json).", 'technique': 'Coq proof (generic reader-loop prefix theorems) + all-prefix differential run against the extracted model + run-time crash/hang/fd observation'},
     "prop_file": "Properties_C18",
-    "extra_prop_files": ["Properties_C18P"],   # statement-level model of oas_precision and its prefix / threshold theorems
+    "extra_prop_files": ["Properties_C18P", "Properties_C18S"],   # statement-level model of oas_precision and its prefix / threshold theorems
     "units": [
         {"harness": "c18", "driver": "c18", "extracted": ["c18"], "extract_file": "Extract_C18", "asan": "thorough", "thorough_seeds": 2},
         # oas_precision on every prefix of OASIS files against its Coq model (value or error code per cut)
         {"harness": "c18p", "driver": "c18p", "extracted": ["c18p"], "extract_file": "Extract_C18P", "module": "checks.c18p", "thorough_seeds": 1},
+        # oas_validate (header test, END location, 32 KiB chunk loop, crc32 / checksum32 defined in Coq) and the signed END record
+        # of write_oas against coq/OasisSig.v: every prefix of small signed files, flips, files beyond the chunk size
+        {"harness": "oas_sig", "driver": "oas_sig", "extracted": ["oas_sig"], "extract_file": "Extract_C18S", "module": "checks.oas_sig", "thorough_seeds": 1},
     ],
     "rule": ("one case per (file, reader): gdstk-written GDSII files with all element kinds (and OASIS files with "
              "CRC32 / CHECKSUM32 / no signature, compressed or not); the reader is run on EVERY prefix length 0..size, "
@@ -17,7 +20,7 @@ CONFIG = {
     "trusted": ["memory errors / hangs / descriptor leaks are run-time observations (ASan+UBSan build in the thorough tier), not theorems",
                 "'a truncated signed OASIS file never validates' is a CRC/byte-sum collision statement: enumerated over every cut, not proved"],
     "assumptions": ["a truncated file is a prefix of the complete file (fread returns the bytes present, then EOF)"],
-    "validation_note": "OASIS light-weight queries (oas_precision, oas_validate) are validated per run on every cut; no Coq model carries them",
+    "validation_note": "memory safety, hangs and descriptor leaks of the readers are validated per run on every cut (forked children, ASan in the thorough tier); the return values of oas_precision and oas_validate are carried by the Coq models of units c18p / oas_sig",
 }
 
 
